@@ -19,6 +19,7 @@ const NO_TID: usize = usize::MAX;
 const MAX_STALE_ALTS: usize = 3;
 const MAX_PERIOD: usize = 6;
 const LIVELOCK_OPS: u64 = 1500;
+const SPIN_PERIODS: usize = 6;
 
 thread_local! {
     static TID: Cell<usize> = const { Cell::new(NO_TID) };
@@ -460,6 +461,9 @@ impl Exec {
         if self.aborting || list.len() == 1 {
             return Some(list[0]);
         }
+        if free && std::env::var("IXMC_DEBUG_SCHED").is_ok() {
+            eprintln!("free choice at step {}: me T{me} ({:?}, yielding {}) candidates {:?} tag {tag:#x}", self.steps, self.threads[me].status, self.threads[me].yielding, list);
+        }
         let idx = self.choice_point(PointKind::Sched, list.len(), if free { 0 } else { 1 }, 0, {
             let mut s = h2(me as u64, tag);
             for &t in &list {
@@ -893,18 +897,23 @@ unsafe fn hook_atomic(addr: *mut u8, width: u8, op: Op, a: u64, b: u64, so: Orde
         th.nochange_ops += 1;
         let len = th.recent.len();
         if th.spin_immune_epoch != Some(epoch) {
+            // SPIN_PERIODS identical periods in a row (the code under test re-reads cursor pairs
+            // two or three times in a row in bounded, straight-line code: that is not spinning)
             for p in 1..=MAX_PERIOD {
-                if len >= 2 * p && th.recent[len - 2 * p..len - p] == th.recent[len - p..] {
-                    th.spin_epoch = Some(epoch);
-                    break;
+                if len >= SPIN_PERIODS * p {
+                    let last = &th.recent[len - p..];
+                    if (2..=SPIN_PERIODS).all(|k| &th.recent[len - k * p..len - (k - 1) * p] == last) {
+                        th.spin_epoch = Some(epoch);
+                        break;
+                    }
                 }
             }
         } else if th.nochange_ops > LIVELOCK_OPS {
             // still no change after a very long time: let the scheduler look at it again
             th.spin_epoch = Some(epoch);
         }
-        if th.recent.len() > 4 * MAX_PERIOD {
-            let cut = th.recent.len() - 2 * MAX_PERIOD;
+        if th.recent.len() > 4 * SPIN_PERIODS * MAX_PERIOD {
+            let cut = th.recent.len() - SPIN_PERIODS * MAX_PERIOD;
             th.recent.drain(..cut);
         }
     }
@@ -1284,6 +1293,10 @@ pub fn yield_now() {
             return;
         }
         e.threads[me].yielding = true;
+        // a loop that yields explicitly is rescheduled only after somebody else has run: it is
+        // not a spin loop, its repeated observations must not be taken for one
+        e.threads[me].recent.clear();
+        e.threads[me].nochange_ops = 0;
     }
     sched_point(me, false, 0x71e1d);
     let mut g = lock_rt();
